@@ -1,6 +1,6 @@
 (** C06 — a value edit discards exactly its dependents; inputs persist. *)
 From Coq Require Import List ZArith Bool.
-From MX Require Import Exec.Model Exec.Spec Exec.Sim Exec.Graph Exec.Cover Exec.Quiet Exec.Edits Exec.Edits3 Exec.Results Exec.Top Exec.Rg Exec.Diff.
+From MX Require Import Exec.Model Exec.Spec Exec.Sim Exec.Graph Exec.Cover Exec.Quiet Exec.Edits Exec.Edits3 Exec.Results Exec.Top Exec.Rg Exec.Diff Exec.Reads Exec.Exact Exec.Exact2.
 Import ListNotations.
 
 (** Clearing (the first half of assigning / overwriting) the value of element
@@ -69,9 +69,20 @@ Theorem C06_inputs_change_only_by_their_own_edits : forall fuel st o x st',
 Proof. exact step_abs. Qed.
 Print Assumptions C06_inputs_change_only_by_their_own_edits.
 
-(** NOT proved: that no *spurious* edge exists (exactness in the other
-    direction: graph descendants = true dependents, not a superset).
-    Non-vacuity: chain c0 <- c1 <- c2, overwrite c0. *)
+(** The dependency edges are EXACT: for an element [j] holding a computed
+    value, there is an edge from [m] to [j] iff [j]'s own formula called [m]
+    (directly or through uncached cells) when it was computed.  Hence the
+    elements reachable from [i] in the graph ([C06_discards_exactly_descendants])
+    are precisely those computed directly or transitively from [i] — not a
+    superset.  [Exa] is kept by every operation (C08_step_keeps_exactness). *)
+Theorem C06_edge_iff_read : forall st m j v,
+  Quiet st -> Exa st -> lookup_data (s_data st) j = Some v -> mem_item j (s_inputs st) = false ->
+  (In (node_of m, node_of j) (s_edges st) <->
+   exists f ds, dr_own f (defs_of st) (input_data st) j = (Val v, ds) /\ In (RItem m) ds).
+Proof. exact edge_iff_read. Qed.
+Print Assumptions C06_edge_iff_read.
+
+(** Non-vacuity: chain c0 <- c1 <- c2, overwrite c0. *)
 Definition ex6_cells : list (cid * cell) :=
   [ (0, mkCell [SAssign (EConst (VInt 1))] 0 [] true false 0);
     (1, mkCell [SAssign (EBin Add (ECall 0 []) (EConst (VInt 1)))] 0 [] true false 0);
